@@ -54,6 +54,9 @@ type Case struct {
 	ProbeKinds []string `json:"probe_kinds,omitempty"`
 	// ProbeSleepUs is the latency of the probes' handlers (0 = they answer at once).
 	ProbeSleepUs int `json:"probe_sleep_us,omitempty"`
+	// AliasCfg[i]: configuration i+1 (Configs[i]) registers its servers as further nodes with other
+	// ids (one address under two ids in one manager), each with a connection of its own.
+	AliasCfg []bool `json:"alias_cfg,omitempty"`
 	// Down lists servers that are never started.
 	Down []int `json:"down,omitempty"`
 	// CtxCheck: before the gates are opened, every call whose context has ended
@@ -112,6 +115,20 @@ type CallInfo struct {
 	Targets []int
 	Spec    scen.CallSpec
 	Call    *scen.Call
+	Alias   bool // invoked on a configuration whose nodes carry the servers' alias ids
+}
+
+// idsOf is the node id per server in the configuration the call was invoked on.
+func idsOf(r Result, ci CallInfo) []uint32 {
+	ids := r.IDs[ci.Mgr]
+	if !ci.Alias {
+		return ids
+	}
+	al := make([]uint32, len(ids))
+	for s := range al {
+		al[s] = scen.AliasID(s)
+	}
+	return al
 }
 
 // Probe is the outcome of one probe RPC.
@@ -238,8 +255,12 @@ func Run(c Case, h Hooks) Result {
 			return res
 		}
 		clients = append(clients, client)
-		for _, cfg := range c.Configs {
-			if _, err := client.AddConfig(cfg); err != nil {
+		for ci, cfg := range c.Configs {
+			add := client.AddConfig
+			if ci < len(c.AliasCfg) && c.AliasCfg[ci] {
+				add = client.AddAliasConfig
+			}
+			if _, err := add(cfg); err != nil {
 				res.SetupErr = err.Error()
 				return res
 			}
@@ -269,7 +290,8 @@ func Run(c Case, h Hooks) Result {
 			cl.SetBehaviour(s, tok, b)
 		}
 		res.Calls = append(res.Calls, CallInfo{Idx: i, Op: i, Token: tok, Seq: uint64(i + 1), Kind: spec.Kind, Thread: op.Thread,
-			Mgr: op.Mgr % len(clients), Targets: call.Targets, Spec: spec, Call: call})
+			Mgr: op.Mgr % len(clients), Targets: call.Targets, Spec: spec, Call: call,
+			Alias: !scen.IsNodeCall(spec.Kind) && client.IsAlias(spec.Config)})
 	}
 	nthreads := c.Threads
 	if nthreads < 1 {
